@@ -211,7 +211,7 @@ def harness_scenario(sc):
 def scenario_input(sc, runs, cosim):
     text = R.scenario_text(harness_scenario(sc), [])
     if cosim:
-        text = text.replace("limit", "cosim 1\nlimit", 1)
+        text = text.replace("limit", "cosim %d\nlimit" % (2 if cosim == 2 else 1), 1)
     return text + "".join("run %s\n" % r for r in runs)
 
 
@@ -405,6 +405,8 @@ class Explorer:
                                      "ring_laps_at_end_of_cosim_runs": st["wraps"], "scheduler_decisions_compared": st["decisions"],
                                      "cosim_runs": st["cosim_runs"]}
         cov["samples"] = self.samples[:6]
+        if "enumerated" in st:
+            cov["systematic_schedule_enumeration"] = st["enumerated"]
         if "ghost" in st:
             cov["theorem_hypotheses_in_cosimulated_runs"] = st["ghost"]
             if st["ghost"]["contradictions"]:
@@ -422,6 +424,63 @@ def explore(ctx, ex, classes, nscen, nsched, relevant=None, extra_runs=("explici
                 ex.samples.append({"class": cls, "ring": sc["ring"], "program": " ; ".join(harness_scenario(sc)["prog"])[:300], "faults": sc.get("faults", [])})
             for p in problems:
                 ex.report(sc, p, relevant)
+
+
+def enumerate_schedules(ctx, ex, sc, bound, budget, relevant=None):
+    """systematic part: starting from the fair schedule of scenario `sc`, every schedule that deviates from it at up to `bound`
+    scheduler decisions (at a deviation another enabled thread runs; afterwards the fair policy continues), at most `budget` runs.
+    Every run goes through the oracles and (for M1's classes) the co-simulation like a random one."""
+    cos = 2
+    frontier = [([], 0)]
+    done = 0
+    stats = ex.stats.setdefault("enumerated", {"scenarios": 0, "runs": 0, "decisions_of_fair_run": [], "exhausted": 0, "bound": bound})
+    stats["scenarios"] += 1
+    exhausted = True
+    while frontier:
+        if done >= budget:
+            exhausted = False
+            break
+        batch = frontier[:min(48, budget - done)]
+        frontier = frontier[len(batch):]
+        runs = ["explicit %s fair" % ",".join(map(str, p)) for p, _ in batch]
+        cosim = cos if ("window" in sc and sc["cls"] in COSIM_CLASSES) else None
+        text_mode = cosim if cosim else 2
+        # run (Q lines are needed also for classes outside M1)
+        if cosim:
+            res, problems = ex.run_scenario(sc, runs, cosim=cosim)
+        else:
+            rc, out, err = C.run_lines(ex.exe, scenario_input(sc, runs, 2), timeout=300)
+            res = R.parse(out)
+            problems = []
+            for r in res:
+                if r["end"] is None:
+                    r["end"] = "CRASH (no END line)"
+                ex.stats["runs"] += 1
+                if r["oracle"]:
+                    problems.append({"kind": "oracle", "sig": sig_of(r["oracle"][0]), "msg": r["oracle"][0], "run": r})
+                elif not r["end"].startswith("ok"):
+                    problems.append({"kind": "crash", "sig": "rt:" + re.sub(r"\d+", "N", " ".join(r["end"].split()[:3])), "msg": r["end"][:300], "run": r})
+        done += len(res)
+        stats["runs"] += len(res)
+        for p in problems:
+            ex.report(sc, p, relevant)
+        for (prefix, dev), r in zip(batch, res):
+            dec = []
+            for ln in r["lines"]:
+                if ln.startswith("Q "):
+                    t = ln.split()
+                    dec.append((int(t[1]), [int(x) for x in t[2][3:].split(",") if x != ""]))
+            if not prefix:
+                stats["decisions_of_fair_run"].append(len(dec))
+            if dev >= bound:
+                continue
+            chosen = [d[0] for d in dec]
+            for i in range(len(prefix), len(dec)):
+                for alt in dec[i][1]:
+                    if alt != dec[i][0]:
+                        frontier.append((chosen[:i] + [alt], dev + 1))
+    if exhausted:
+        stats["exhausted"] += 1
 
 
 def run_corpus(ctx, ex, prop, relevant=None):
